@@ -38,6 +38,14 @@ theorem witness_step (as : List Action) (a : Action) {P Q : State → Prop}
   rw [run_snoc, hr] at hr'
   exact ⟨s, s', reachable_of_run as Reachable.init hr, hr', hps, hqs⟩
 
+def pActW : Params := { pA with maxFails := 3, failDur := 3, retries := 0, aOn := true, aPasses := 1, aFails := 1 }
+
+/-- two passive failures pending on Host 0, then the active checker flips the upstream down -/
+def wAct : List Action :=
+  [.newCfg pActW, .store 0 7, .activeCheck 0 0 true, .newReq 0 true, .newReq 0 true, .dispatch 0 0, .dispatch 1 0,
+   .finish 0 .upstreamErr, .after 0, .spawn 0 0, .finish 1 .upstreamErr, .after 1, .spawn 1 1,
+   .activeCheck 0 0 false]
+
 /-- configuration 0 (key 7) is loaded; configuration 1 lists key 7, fails in Provision before
     storing anything and is cancelled; the next step is its Cleanup -/
 def wBad : List Action := [.newCfg pA, .store 0 7, .newCfg noParams, .cancel 1]
@@ -60,6 +68,18 @@ theorem reload_after_failed_provision_got_new_host_old_code_fails :
 theorem reload_after_failed_provision_keeps_host :
     HoldsAfter (wBad ++ [.delete 1 7, .newCfg pA, .store 2 7])
       (fun s => s.cfgs.map (·.ups) = [[(7, 0)], [], [(7, 0)]] ∧ refs s 7 = 2) := by decide
+
+/-- **active_flip_zeroing_fails_breaks_accounting** — the seeded change
+    C09-active-flip-zeroes-passive-fails (`resetHealth` also stores 0 into `Host.fails`), as
+    `Model.stepActiveZeroing`: with two passive failures pending, the active status flip leaves
+    `fails = 0` while two forgetters are still to run (`fails ≠ pending forgetters`), and when
+    they have run the count is −2.  The real `stepActive` keeps `fails = 2` and ends at 0
+    (`Props.active_checks_leave_passive_accounting_alone` and the examples next to it). -/
+theorem active_flip_zeroing_fails_breaks_accounting :
+    ((runZeroing init wAct).map fun s => (s.fails 0, pendingForgetters s 0)) = some (0, 2) ∧
+    ((runZeroing init (wAct ++ [.tick, .tick, .tick, .forget 0, .forget 1])).map fun s => s.fails 0) = some (-2) ∧
+    ((run init wAct).map fun s => (s.fails 0, pendingForgetters s 0)) = some (2, 2) ∧
+    ((run init (wAct ++ [.tick, .tick, .tick, .forget 0, .forget 1])).map fun s => s.fails 0) = some 0 := by decide
 
 /-- the same at the level of the harness schedule `sched 1 L:0:…;B:0;L:0:…` (the former witness
     line, now corpus/C09/regression.txt): the configuration loaded after the rejected one keeps key 0
